@@ -61,7 +61,7 @@ fn scenario(seq: i64, seq_dec: &[u8], with_salt: bool) {
 }
 
 //@ ob: C02.O1a
-//@ tier: quick
+//@ tier: thorough
 //@ cap: 1800
 //@ also: C03
 //@ desc: MutableItem::from_dht_message(target, k, v, seq, sig, salt) = Ok(item) iff the signature oracle said valid for exactly (k, bencode-signable(salt, seq, v), sig) AND target = SHA1(k || salt) (real SHA-1); the item carries k, seq, v, salt, sig -- instance seq = 1, no salt
@@ -76,7 +76,7 @@ fn c02_o1a_from_dht_message_seq1_nosalt() {
 }
 
 //@ ob: C02.O1b
-//@ tier: quick
+//@ tier: thorough
 //@ cap: 1800
 //@ also: C03
 //@ desc: same as C02.O1a with seq = -1 and a 1-byte symbolic salt: an item for another salt (target of a different salt) is rejected
@@ -121,7 +121,7 @@ fn c02_o1d_from_dht_message_max_salt() {
 }
 
 //@ ob: C02.O1e
-//@ tier: quick
+//@ tier: thorough
 //@ cap: 900
 //@ also: C03 C05
 //@ desc: malformed key lengths are rejected without panic and without any verification: key slice length in {0, 31, 33}
@@ -147,7 +147,7 @@ fn c02_o1e_from_dht_message_key_lengths() {
 }
 
 //@ ob: C02.O1f
-//@ tier: quick
+//@ tier: thorough
 //@ cap: 900
 //@ also: C03 C05
 //@ desc: malformed signature lengths are rejected without panic and without any verification: signature length in {0, 63, 65}, with a well-formed key
